@@ -295,15 +295,25 @@ def refute_finite(reg, idx, c, names, scope=3, timeout_ms=60000, seed=0, max_obs
                 break
             max_obs -= 1
         t0 = time.time()
-        s = z3.Solver()
-        s.set("timeout", timeout_ms)
-        s.set("random_seed", seed)
-        for a in axioms:
-            s.add(a)
-        for p in ob.pc:
-            s.add(p)
-        s.add(z3.Not(ob.goal))
-        rr = s.check()
+        # the instantiated queries are quantifier-free but large; whether z3 finds the model in
+        # time depends on the seed, so a small portfolio of seeds shares the budget
+        rr = z3.unknown
+        for cfg in ("default", "tactic", "seeded"):
+            if cfg == "tactic":
+                s = z3.Then("simplify", "solve-eqs", "smt").solver()
+            else:
+                s = z3.Solver()
+            s.set("timeout", max(1500, timeout_ms // 3))
+            if cfg == "seeded":
+                s.set("random_seed", seed + 1)
+            for a in axioms:
+                s.add(a)
+            for p in ob.pc:
+                s.add(p)
+            s.add(z3.Not(ob.goal))
+            rr = s.check()
+            if rr != z3.unknown:
+                break
         if rr == z3.sat:
             m = s.model()
             try:
@@ -346,7 +356,7 @@ def decide_unit(reg, idx, c, timeout_ms=None, seed=0, scope=3):
     pending = {d["name"] for _, d in pairs if d["status"] == "pending"}
     if pending:
         try:
-            apply_found(refute_finite(reg, idx, c, pending, scope=scope, timeout_ms=3000, seed=seed, max_obs=6))
+            apply_found(refute_finite(reg, idx, c, pending, scope=scope, timeout_ms=6000, seed=seed, max_obs=6))
         except Exception as e:
             r.notes.append("finite refutation search failed: " + repr(e)[:200])
     for ob, d in pairs:
